@@ -1,0 +1,84 @@
+//go:build verif
+
+package luahost
+
+import (
+	"github.com/inbucket/inbucket/v3/pkg/extension/event"
+	lua "github.com/yuin/gopher-lua"
+)
+
+var _ event.SMTPResponse
+
+// ---------------------------------------------------------------------------------------------
+// C17 (Go glue of the Lua host): what a script's answer becomes.  The Lua interpreter itself is
+// assumed (contracts/ext/lua.go): running a script may do anything; its error and the value it left on
+// the stack are ghosts of the Lua state.
+func ghost_lastPushed(ls *lua.LState) lua.LValue { panic("ghost") }
+func ghost_lastCallErr(ls *lua.LState) error     { panic("ghost") }
+func ghost_lastGot(ls *lua.LState) lua.LValue    { panic("ghost") }
+func ghost_lastState(p *statePool) *lua.LState   { panic("ghost") }
+
+// A value holds response r: it is a userdata whose Go value is r.
+//@ pred spec_holds(v lua.LValue, r *event.SMTPResponse) bool = v.(*lua.LUserData) != nil && v.(*lua.LUserData).Value.(*event.SMTPResponse) == r
+
+// smtp.allow() / smtp.defer() / smtp.deny(code, msg): every call builds a response of its own (two
+// answers never share an object), with the action of the constructor.
+//@ func newSMTPResponse$1
+//@   requires ls != nil
+//@   modifies ghost_lastPushed(ls)
+//@   ensures[ownResponse C17] ghost_lastPushed(ls).(*lua.LUserData) != nil && vcFresh(ghost_lastPushed(ls).(*lua.LUserData)) &&
+//@      ghost_lastPushed(ls).(*lua.LUserData).Value.(*event.SMTPResponse) != nil && vcFresh(ghost_lastPushed(ls).(*lua.LUserData).Value.(*event.SMTPResponse)) &&
+//@      ghost_lastPushed(ls).(*lua.LUserData).Value.(*event.SMTPResponse).Action == action
+//@   serves C17
+
+//@ func wrapSMTPResponse
+//@   requires ls != nil
+//@   ensures ret != nil && vcFresh(ret) && ret.Value == any(val)
+//@   serves C17
+
+// A Lua value never holds a nil userdata pointer (same text as the assumption made where values come
+// from the interpreter, contracts/ext/lua.go).
+//@ func spec_lvOK
+//@   inline
+func spec_lvOK(lv lua.LValue) bool {
+	ud, ok := lv.(*lua.LUserData)
+	return !ok || ud != nil
+}
+
+// unwrapSMTPResponse: the response held by a userdata, or an error for anything else.
+//@ func unwrapSMTPResponse
+//@   requires lv != nil && spec_lvOK(lv)
+//@   ensures[unwraps C17] (ret1 != nil ==> ret0 == nil) && (ret0 != nil ==> ret1 == nil && spec_holds(lv, ret0))
+//@   serves C17
+
+// The pool, the script table and the wrappers of event values: assumed.
+//@ func (*statePool).getState
+//@   trusted
+//@   modifies ghost_lastState(lp)
+//@   ensures ret1 == nil ==> ret0 != nil
+//@   attr result-ghost=ghost_lastState
+//@ func (*statePool).putState
+//@   trusted
+//@ func getInbucket
+//@   trusted
+//@   ensures ret1 == nil ==> ret0 != nil
+//@ func wrapSMTPSession
+//@   trusted
+//@   ensures ret != nil
+//@ func (*Host).prepareInbucketFuncCall
+//@   inline
+
+// The SMTP hooks: a script that fails has not answered (nil: the policy decides); otherwise the
+// answer is exactly the response the script returned, or nil if it returned anything else.
+//@ func (*Host).handleBeforeMailFromAccepted
+//@   requires h != nil && h.pool != nil
+//@   modifies allof(ghost_lastState), allof(ghost_lastCallErr), allof(ghost_lastPushed), allof(ghost_lastGot)
+//@   ensures[errorMeansNoAnswer C17] ghost_lastState(h.pool) != nil && ghost_lastCallErr(ghost_lastState(h.pool)) != nil ==> ret == nil
+//@   ensures[answerIsTheScripts C17] ret != nil ==> ghost_lastState(h.pool) != nil && ghost_lastCallErr(ghost_lastState(h.pool)) == nil && spec_holds(ghost_lastGot(ghost_lastState(h.pool)), ret)
+//@   serves C17
+//@ func (*Host).handleBeforeRcptToAccepted
+//@   requires h != nil && h.pool != nil
+//@   modifies allof(ghost_lastState), allof(ghost_lastCallErr), allof(ghost_lastPushed), allof(ghost_lastGot)
+//@   ensures[errorMeansNoAnswer C17] ghost_lastState(h.pool) != nil && ghost_lastCallErr(ghost_lastState(h.pool)) != nil ==> ret == nil
+//@   ensures[answerIsTheScripts C17] ret != nil ==> ghost_lastState(h.pool) != nil && ghost_lastCallErr(ghost_lastState(h.pool)) == nil && spec_holds(ghost_lastGot(ghost_lastState(h.pool)), ret)
+//@   serves C17
